@@ -2271,7 +2271,92 @@ _SHAPE_LABELS = ['vlines=1', 'vlines=2', 'vlines=3', 'vlines=4', 'zero-same', 'z
                  'empty-clause', 'unused-variables', 'ten-or-more-variables', 'exit-10-20',
                  'no-answer:nosline', 'no-answer:unknown', 'no-answer:crash']
 
+# ---------------------------------------------------------------------------
+# many calls in one process
+
+MANY = 150
+FD_MARGIN = 64
+
+
+def run_many(case):
+    """The same call MANY times in one process, with the soft limit on open file descriptors lowered to what the process
+    has open now + FD_MARGIN (one call needs about a dozen at a time and gives them back): every call must report what
+    the solver found, as the first one did."""
+    import resource
+    F = build_formula(case)
+    n = F.number_of_variables()
+    clauses = [list(c) for c in F]
+    verdict, model = answer_of(case, n, clauses)
+    shape = case['shape']
+    name = case['solver']
+    cmd, sameas = case.get('cmd', name), case.get('sameas')
+    beh = fs.behaviour_of(sameas or name)
+    what = case.get('what', 'solve')
+    soft, hard = resource.getrlimit(resource.RLIMIT_NOFILE)
+    results = []
+    with fs.Sandbox() as sb:
+        sb.install(cmd, beh, 'ok', verdict, model, shape, n)
+        used = len(os.listdir('/proc/self/fd'))
+        limit = used + FD_MARGIN
+        if hard != resource.RLIM_INFINITY:
+            limit = min(limit, hard)
+        resource.setrlimit(resource.RLIMIT_NOFILE, (limit, hard))
+        try:
+            for k in range(MANY):
+                try:
+                    if what == 'solve':
+                        o = call_bridge(sb, what, lambda: F.solve(cmd=cmd, sameas=sameas))
+                    else:
+                        o = call_bridge(sb, what, lambda: F.is_satisfiable(cmd=cmd, sameas=sameas))
+                    results.append(('exc', type(o.exc).__name__, str(o.exc)[:200]) if o.exc is not None else ('value', o.value, o.left))
+                except Exception as e:      # noqa  (OSError and friends: not the documented errors)
+                    results.append(('exc', type(e).__name__, str(e)[:200]))
+                if results[-1] != results[0] or results[-1][0] == 'exc':
+                    break
+        finally:
+            resource.setrlimit(resource.RLIMIT_NOFILE, (soft, hard))
+        after = len(os.listdir('/proc/self/fd'))
+    ctx = "{}(cmd={!r}, sameas={!r}) on p cnf {} {} {} with a program of the {} convention that answers {}; {} calls in one process with at most {} file descriptors allowed ({} were open before the first call, {} after the last)".format(
+        what, cmd, sameas, n, len(clauses), clauses[:6], fs.CONVENTION_LABEL[beh], 'SATISFIABLE' if verdict else 'UNSATISFIABLE',
+        len(results), limit, used, after)
+    want = (verdict, model) if what == 'solve' and verdict else ((False, None) if what == 'solve' else verdict)
+    first = results[0]
+    if first[0] != 'value' or (first[1] != want and not (what == 'solve' and verdict and first[1][0] is True and satisfies(clauses, first[1][1]))):
+        raise Violation("the first call gave {!r}, the solver's answer is {!r}; {}".format(first[:2], want, ctx))
+    if first[2]:
+        raise Violation("temporary files left after the first call: {}; {}".format(first[2], ctx))
+    for k, r in enumerate(results):
+        if r != first:
+            raise Violation("call number {} gave {!r} where the first call gave {!r}, although the program answers the same every time; {}".format(
+                k + 1, r[:2], first[:2], ctx))
+    return Outcome(labels=['many-calls', 'many/' + fs.CONVENTION_LABEL[beh], 'many-' + what, 'many-sat' if verdict else 'many-unsat'],
+                   nontrivial=len(clauses) >= 2)
+
+
+def enum_many(tier):
+    i = 0
+    names = _tree_names() if tier == 'thorough' else ['minisat', 'lingeling', 'sat4j']
+    for name in names:
+        for f in (ENUM_FORMULAS[3], ENUM_FORMULAS[1]) if tier == 'quick' else ENUM_FORMULAS[:4]:
+            for what in ('solve', 'is_satisfiable'):
+                i += 1
+                if tier == 'quick' and i % 2 == 0 and name != 'sat4j':
+                    continue
+                c = _mk({'mode': 'named', 'solver': name, 'installed': {name: 'ok'}}, f, ENUM_SHAPES[0], i)
+                c['what'] = what
+                yield c
+        i += 1
+        c = _mk({'mode': 'named', 'solver': name, 'installed': {name: 'ok'}}, ENUM_FORMULAS[3], ENUM_SHAPES[0], i)
+        c['cmd'], c['sameas'] = 'mysolver', name
+        yield c
+
+
+
+
 SUBCHECKS = [
+    SubCheck('many_calls', run_many, enumerate_cases=enum_many, quick=0, thorough=0, max_shards=4, opt_pass=False,
+             rule="the same solve() / is_satisfiable() call 150 times in one process on one formula, with a fake program of each convention (quick: minisat, lingeling, sat4j; thorough: every supported name) that gives the same answer every time, also as an unsupported program name with sameas=; the soft limit on open file descriptors is lowered for the duration to what the process has open + 64 (a call needs about a dozen at a time); oracle: every call returns what the first one returned, which is the solver's answer, and leaves no temporary file - an answer that depends on how many calls went before is not what the solver found; non-trivial: >=2 clauses",
+             required_labels=['many-calls', 'many/filein-fileout', 'many/filein-stdout', 'many/stdin-stdout', 'many-solve', 'many-is_satisfiable', 'many-sat', 'many-unsat']),
     SubCheck('named', run_verdict, strategy=strat_named, enumerate_cases=enum_named,
              quick=400, thorough=24000,
              rule="cmd='<supported name> [options]': every name of the interface table x 7 fixed formulas (quick: 4) x 6 answer shapes enumerated, plus generated CNFs (0..12 variables, empty clauses, unused variables, variable blocks) x generated answer shapes (model over 1..4 'v' lines, terminating 0 same line/own line/absent, 's' line before/middle/after, comments and blank lines interleaved, model printed in any order, exit 10/20 or 0, no 's' line, 's UNKNOWN', crash; minisat: SAT/UNSAT/INDET/empty result) x solver present/missing/not executable/not a program, decoy solvers installed; oracle: captured DIMACS = formula (strict reader), options forwarded, (True, model sorted by variable) / (False, None) / RuntimeError, is_satisfiable agrees; non-trivial: unsatisfiable answer, or >=2 variables and model over >=2 'v' lines (or the minisat result file)",
